@@ -258,10 +258,10 @@ def main(tier):
             if not quick:
                 seqs += [(t0, (a, c)) for t0 in range(0, nt, 3) for a in range(1, nt, 4) for c in range(2, nt, 5)]
             nsig += e3_sigusr1(run, b, u, seqs, fresh)
-    if nseq < 500 and not run.violations:
+    if nseq < 500 and not run.violations and not run.capped:
         raise common.HarnessError('vacuous: %d sequences' % nseq)
     distinct_fresh = len({repr(sorted(v.items())) for v in fresh.values()})
-    if distinct_fresh < 10 and not run.violations:
+    if distinct_fresh < 10 and not run.violations and not run.capped:
         raise common.HarnessError('vacuous: the probes distinguish only %d of the tables' % distinct_fresh)
     cov = {'states': nseq, 'transitions': ntrace, 'traces_validated_against_impl': ntrace + nsig,
            'samples': [['start ' + tstr('services', _G['tables']['services'][5]), 'reload ' + tstr('services', _G['tables']['services'][9]), 'probe ok-ka1: ' + ' | '.join(probes(1)['ok-ka1'])],
